@@ -13,5 +13,8 @@ func main() {
 	r := hv.NewRand(hv.Seed())
 	w := hsx.NewWorld()
 	w.C19Discoverable(r)
+	wait := w.C19RealRotationStart()
+	w.C19ForgedCookies(r)
 	w.C19Hidden(r)
+	wait()
 }
